@@ -2347,6 +2347,18 @@ _resource_tracker""")),
       (PE, """            queue_size = 2 * self._max_workers + EXTRA_QUEUED_CALLS""", """            queue_size = self._max_workers // 2 + EXTRA_QUEUED_CALLS""")),
     M("queue-cap-base-constant", ["C08"], ["R-QUEUE-CAP"],
       (PE, """            queue_size = 2 * self._max_workers + EXTRA_QUEUED_CALLS""", """            queue_size = 8 + EXTRA_QUEUED_CALLS""")),
+    M("tracker-eof-test-on-stripped-line", ["C11", "C12", "C13"], ["R-RT-LOOP"],
+      (RT, """                line = f.readline()
+                if line == b"":  # EOF""", """                line = f.readline().strip()
+                if line == b"":  # EOF""")),
+    M("cond-wait-count-clamped-by-maxvalue", ["C14"], ["R-COND-PAIR"],
+      (SY, """        count = self._lock._semlock._count()
+        for _ in range(count):
+            self._lock.release()""", """        count = min(
+            self._lock._semlock._count(), self._lock._semlock.maxvalue
+        )
+        for _ in range(count):
+            self._lock.release()""")),
 ]
 
 
@@ -2569,6 +2581,15 @@ BENIGN = [
             )""")),
     B("benign-queue-cap-base-larger", ["C08"],
       (PE, """            queue_size = 2 * self._max_workers + EXTRA_QUEUED_CALLS""", """            queue_size = 3 * self._max_workers + EXTRA_QUEUED_CALLS + 1""")),
+    B("benign-tracker-strip-after-eof-test", ["C11", "C12", "C13"],
+      (RT, """                if line == b"":  # EOF
+                    break
+                try:
+                    splitted = line.strip().decode("ascii").split(":")""", """                if line == b"":  # EOF
+                    break
+                line = line.strip()
+                try:
+                    splitted = line.decode("ascii").split(":")""")),
     B("benign-env-overlay-copied", ["C18", "C20"],
       (PR, """        self.env = {} if env is None else env""", """        self.env = dict(env or {})""")),
     B("benign-increment-spelled-out", None,
